@@ -26,6 +26,9 @@ ElemStr(elem, x) == IF elem = "int" THEN ToString(x) ELSE PrintItem(x)
 ElemShallowEq(elem, a, b) == IF elem = "int" THEN a = b ELSE a.k = b.k
 ElemStrEq(elem, a, b) == IF elem = "int" THEN a = b ELSE PrintItem(a) = PrintItem(b)
 
+\* ( n ( n-1 ( ... ( 1 leaf ) ... ) ) ) as the harness builds it (Item::list takes the elements bottom first)
+RECURSIVE DeepItem(_, _)
+DeepItem(n, leaf) == IF n = 0 THEN IInt(leaf) ELSE IList(<<IInt(n), DeepItem(n - 1, leaf)>>)
 StackOp(elem, m, a, s) ==
   LET n == Len(s) IN
   CASE m = "to_string" -> PR(s, RVal(JoinStr([i \in 1..n |-> ElemStr(elem, s[i])], " ")))
@@ -50,6 +53,11 @@ StackOp(elem, m, a, s) ==
     [] m = "push_vec" -> PR(Rev(a[1]) \o s, RUnit)
     [] m = "from_vec" -> PR(Rev(a[1]), RUnit)
     [] m = "clone"    -> PR(s, RVal(s))
+    \* an element of any nesting depth is printed in full, equals itself and differs from one with another leaf
+    [] m = "deep_probe" -> IF elem = "int" THEN PR(s, RNone)
+                           ELSE LET d == DeepItem(a[1], a[2]) IN
+                                PR(s, RVal([text |-> JoinStr([i \in 1..(n + 1) |-> ElemStr(elem, (<<d>> \o s)[i])], " "),
+                                            copy |-> PrintItem(d), same |-> TRUE, other |-> FALSE, back |-> TRUE]))
 StackMethods == {"to_string", "size", "last_eq", "equal_at", "bottom_mut", "flush", "replace", "remove", "reverse",
                  "get", "get_mut", "copy", "push", "push_front", "yank", "shove", "pop_front", "pop", "pop_vec",
                  "copy_vec", "push_vec", "from_vec", "clone"}
